@@ -66,8 +66,54 @@ def tempoValue : TempoVal → Rat
   | .whole n => (n : Rat)
   | .dec ip fp => (ip : Rat) + (Model.digitsToNat fp : Rat) / ((10 ^ fp.length : Nat) : Rat)
 
-/-- `_handle_sound` down to the number: `float(e.attrib["tempo"])` -/
+/-- `_handle_sound` down to the number, plain decimal texts: `float(e.attrib["tempo"])` -/
 def readSoundFloat (x : Xml) : Option (Option Dbl) :=
   (readSound x).map (Option.map fun t => readFloat (tempoValue t))
+
+/-! ### exponent notation (`repr` of a float below 1e-4 is `1.5e-05`; `"{:g}"` of a large one is `1.23457e+06`) -/
+
+/-- `10 ^ k` for an integer `k` -/
+def pow10 (k : Int) : Rat :=
+  if 0 ≤ k then ((10 ^ k.toNat : Nat) : Rat) else 1 / ((10 ^ (-k).toNat : Nat) : Rat)
+
+/-- the digits of an exponent as Python prints them: at least two -/
+def expDigits (n : Nat) : Str := if n < 10 then '0' :: Model.natDigits n else Model.natDigits n
+
+/-- mantissa and exponent as text: plain when the exponent is 0 (WHEN `repr` switches to an exponent is not modelled: the
+    harness takes mantissa and exponent from the `repr` of the number), else `<mantissa>e-XX` / `<mantissa>e+XX` -/
+def sciText (t : TempoVal) (ex : Int) : Str :=
+  if ex = 0 then tempoText t
+  else tempoText t ++ 'e' :: (if ex < 0 then '-' else '+') :: expDigits ex.natAbs
+
+def writeSoundSci (t : TempoVal) (ex : Int) : Xml := .el .sound [(.tempo, sciText t ex)] [] []
+
+/-- the exponent part of a float literal: optional sign, digits -/
+def parseExp (r : Str) : Option Int :=
+  match r with
+  | [] => none
+  | c :: ds =>
+    if c = '-' then (if allDigits ds then some (-(Model.digitsToNat ds : Int)) else none)
+    else if c = '+' then (if allDigits ds then some (Model.digitsToNat ds : Int) else none)
+    else if allDigits (c :: ds) then some (Model.digitsToNat (c :: ds) : Int) else none
+
+/-- `float(text)` syntax for `digits[.digits][e[sign]digits]` (blanks, a sign, `E`, `inf`, `nan`, underscores, `.5`, `5.`
+    are not modelled: `none`) -/
+def parseSci (s : Str) : Option (TempoVal × Int) :=
+  let mant := s.takeWhile (· != 'e')
+  match s.dropWhile (· != 'e') with
+  | [] => (parseTempo mant).map fun t => (t, 0)
+  | _ :: r =>
+    match parseTempo mant, parseExp r with
+    | some t, some ex => some (t, ex)
+    | _, _ => none
+
+def sciValue (p : TempoVal × Int) : Rat := tempoValue p.1 * pow10 p.2
+
+/-- `_handle_sound` down to the number, with exponent notation: `some none` = no tempo attribute, `none` = not a literal
+    of the modelled form -/
+def readSoundNum (x : Xml) : Option (Option Dbl) :=
+  match x.get .tempo with
+  | none => some none
+  | some s => (parseSci s).map fun p => some (readFloat (sciValue p))
 
 end Model.Binary64
